@@ -46,6 +46,95 @@ Qed.
 Lemma filter_is_nu_app l1 l2 : filter is_nu (l1 ++ l2) = filter is_nu l1 ++ filter is_nu l2.
 Proof. apply filter_app. Qed.
 
+Section StopEv.
+  Variable U : list block.
+  Variable c : jcfg.
+  Variable canon : list block.
+  Variable start : N.
+  Variable merged_end : N.
+  Hypothesis U_id : forall b, In b U -> bid b <> 0 /\ bid b <> bparent b.
+  Hypothesis U_uniq : forall x y, In x U -> In y U -> bid x = bid y -> x = y.
+  Hypothesis U_up : forall x y, In x U -> In y U -> bparent x = bid y -> bnum y < bnum x.
+  Hypothesis Hchain : chain_ok canon.
+  Hypothesis Hincl : incl canon U.
+  Hypothesis Hstartle : exists b, In b canon /\ bnum b <= start.
+  Hypothesis Hnu : has_nu (j_filter c) (j_custom c) = true.
+  Let merged := filter (fun b => bnum b <? merged_end) canon.
+  Notation disc := (disc U start).
+
+  (* the stop event of a raw sequence whose beginnings fold *)
+  Lemma stop_event_from J0 X X1 e X2 :
+    (forall b, In b J0 -> bnum b < j_stop c) ->
+    disc J0 X -> X = X1 ++ e :: X2 -> snd (upto_stop c X1) = false -> stops c e = true -> start <= j_stop c ->
+    let out := delivered c X1 ++ (if fst (Joining.chain c e) then [e] else []) in
+    exists J, sfold J0 (filter is_nu out) = Some J /\
+      stop_reached c canon merged start out J.
+  Proof.
+    intros HJ0 Hd EX Hns Hs Hle out.
+    destruct (stops_true c e Hs) as (Hp & H0 & Hge & Hfst).
+    assert (HcU : Forall (fun x => In x U) canon) by (apply Forall_forall; exact Hincl).
+    pose proof (lnk_of_chain_ok canon Hchain) as Hcl. pose proof Hstartle as Hsl.
+    (* the stacks before and after e *)
+    destruct (Hd X1 (e :: X2) EX) as (Ja & HJa & _).
+    destruct (Hd (X1 ++ [e]) X2) as (Jb & HJb & HGb); [rewrite EX, <- app_assoc; reflexivity|].
+    assert (Hsap : sapply Ja e = Some Jb).
+    { rewrite sfold_app, HJa in HJb. cbn [sfold] in HJb. destruct (sapply Ja e) as [J'|]; [exact HJb | discriminate]. }
+    assert (Hda : filter is_nu (delivered c X1) = filter is_nu X1) by (apply nu_delivered; assumption).
+    (* every New-matching event of X1 is numbered below S *)
+    assert (Hbelow : forall x, In x X1 -> matches_new (estep x) = true -> enum x < j_stop c).
+    { intros x Hx Hm. pose proof (upto_stop_nostop c X1 Hns) as Hall. rewrite Forall_forall in Hall.
+      apply (stops_false_pass c x (Hall x Hx)); [|exact H0].
+      apply has_nu_pass; [exact Hnu | unfold is_nu; rewrite Hm; reflexivity]. }
+    set (J := if enum e =? j_stop c then Jb else Ja).
+    assert (HJ : sfold J0 (filter is_nu out) = Some J).
+    { unfold out, J. rewrite Hfst, filter_is_nu_app, Hda.
+      change (filter is_nu X1) with (filter nu_ev X1). rewrite sfold_app, sfold_filter, HJa.
+      destruct (enum e =? j_stop c); [|reflexivity].
+      change (filter is_nu [e]) with (filter nu_ev [e]). rewrite sfold_filter. cbn [sfold]. rewrite Hsap. reflexivity. }
+    exists J. split; [exact HJ|]. right. exists (delivered c X1), e.
+    split; [unfold out; rewrite Hfst; reflexivity|]. split; [exact Hp|]. split; [exact Hge|].
+    intros Hm Hcan.
+    pose proof (sapply_new_top Ja e Jb Hsap Hm) as EJb.
+    destruct HGb as [HGb|[V HR]]; [rewrite EJb in HGb; discriminate|].
+    apply in_split in Hcan as (cpre & cpost & Ecan).
+    pose proof (rel_top_canon U U_id U_uniq U_up start V Jb (eblk e) Ja canon cpre cpost HR EJb Ecan HcU Hcl Hsl) as Htop.
+    (* canon up to the block of e, by numbers *)
+    assert (Hsorted : StronglySorted blt canon).
+    { destruct Hcl as [xc Hlc]. apply (linked_sorted U U_id U_uniq U_up _ xc Hlc HcU). }
+    assert (Hcpre : forall y, In y cpre -> bnum y < enum e).
+    { intros y Hy. rewrite Ecan in Hsorted.
+      destruct (Proofs.C09_Proofs.StronglySorted_split blt cpre (eblk e) cpost Hsorted) as [HA _]. exact (HA y Hy). }
+    assert (Hcpost : forall y, In y cpost -> enum e < bnum y).
+    { intros y Hy. rewrite Ecan in Hsorted.
+      destruct (Proofs.C09_Proofs.StronglySorted_split blt cpre (eblk e) cpost Hsorted) as [_ HB]. exact (HB y Hy). }
+    assert (Hseg : from_num start (cpre ++ [eblk e]) = seg_num start (enum e) canon).
+    { unfold seg_num, from_num. rewrite Ecan.
+      change (eblk e :: cpost) with ([eblk e] ++ cpost). rewrite app_assoc, (filter_app _ (cpre ++ [eblk e]) cpost).
+      rewrite (filter_none _ _ cpost), app_nil_r.
+      - apply filter_ext_in. intros y Hy. replace (bnum y <=? enum e) with true; [rewrite andb_true_r; reflexivity|].
+        symmetry. apply N.leb_le. apply in_app_or in Hy as [Hy|[<-|[]]]; [specialize (Hcpre y Hy); lia | unfold enum; lia].
+      - apply Forall_forall. intros y Hy. specialize (Hcpost y Hy). apply andb_false_iff. right. apply N.leb_gt. exact Hcpost. }
+    split.
+    - (* canon has a block numbered S: e announces it *)
+      intros (bS & HbS & HnS). destruct (N.eq_dec (enum e) (j_stop c)) as [E|E]; [exact E|]. exfalso.
+      assert (Hlt : j_stop c < enum e) by lia.
+      (* bS is held under the block of e *)
+      assert (HbSin : In bS (rev Jb)).
+      { assert (H : In bS (from_num start (rev Jb))).
+        { rewrite Htop, Hseg. unfold seg_num. apply filter_In. split; [exact HbS|].
+          apply andb_true_iff. split; apply N.leb_le; [|lia].
+          rewrite HnS. exact Hle. }
+        unfold from_num in H. apply filter_In in H as [H _]. exact H. }
+      apply in_rev in HbSin. rewrite EJb in HbSin. destruct HbSin as [EbS|HbSin].
+      + unfold enum in Hlt. rewrite EbS in Hlt. lia.
+      + destruct (sfold_origin X1 J0 Ja HJa bS HbSin) as [Hin0|(x & Hx & Hxb & Hxm)]; [specialize (HJ0 bS Hin0); lia|].
+        specialize (Hbelow x Hx Hxm). unfold enum in Hbelow. rewrite Hxb in Hbelow. lia.
+    - intros E. unfold J. rewrite E, N.eqb_refl. split; [rewrite EJb; reflexivity|].
+      rewrite Htop, Hseg, E. reflexivity.
+  Qed.
+
+End StopEv.
+
 Section NumRun.
   Variable U : list block.
   Variable c : jcfg.
@@ -88,7 +177,7 @@ Section NumRun.
   Proof. intros b Hb. apply Hincl. unfold merged in Hb. apply filter_In in Hb as [Hb _]. exact Hb. Qed.
 
   Lemma Hstartle : exists b, In b canon /\ bnum b <= start.
-  Proof. destruct Hstartblk as (b0 & H1 & H2). exists b0. split; [exact H1 | lia]. Qed.
+  Proof. clear - Hstartblk. destruct Hstartblk as (b0 & H1 & H2). exists b0. split; [exact H1 | lia]. Qed.
 
   Lemma run_files_num : run_files c start merged_end merged forked = (map fev D, fend).
   Proof. unfold run_files. rewrite Hmode. reflexivity. Qed.
@@ -224,73 +313,13 @@ Section NumRun.
   Lemma fev_passes b : passes c (fev b) = true.
   Proof. apply has_nu_pass; [exact Hnu | reflexivity]. Qed.
 
-  (* the stop event of a raw sequence whose beginnings fold *)
   Lemma stop_event X X1 e X2 :
     disc [] X -> X = X1 ++ e :: X2 -> snd (upto_stop c X1) = false -> stops c e = true -> start <= j_stop c ->
     let out := delivered c X1 ++ (if fst (Joining.chain c e) then [e] else []) in
     exists J, sfold [] (filter is_nu out) = Some J /\
       stop_reached c canon merged start out J.
   Proof.
-    intros Hd EX Hns Hs Hle out.
-    destruct (stops_true c e Hs) as (Hp & H0 & Hge & Hfst).
-    pose proof HcU as HcU. pose proof (lnk_of_chain_ok canon Hchain) as Hcl. pose proof Hstartle as Hsl.
-    (* the stacks before and after e *)
-    destruct (Hd X1 (e :: X2) EX) as (Ja & HJa & _).
-    destruct (Hd (X1 ++ [e]) X2) as (Jb & HJb & HGb); [rewrite EX, <- app_assoc; reflexivity|].
-    assert (Hsap : sapply Ja e = Some Jb).
-    { rewrite sfold_app, HJa in HJb. cbn [sfold] in HJb. destruct (sapply Ja e) as [J'|]; [exact HJb | discriminate]. }
-    assert (Hda : filter is_nu (delivered c X1) = filter is_nu X1) by (apply nu_delivered; assumption).
-    (* every New-matching event of X1 is numbered below S *)
-    assert (Hbelow : forall x, In x X1 -> matches_new (estep x) = true -> enum x < j_stop c).
-    { intros x Hx Hm. pose proof (upto_stop_nostop c X1 Hns) as Hall. rewrite Forall_forall in Hall.
-      apply (stops_false_pass c x (Hall x Hx)); [|exact H0].
-      apply has_nu_pass; [exact Hnu | unfold is_nu; rewrite Hm; reflexivity]. }
-    set (J := if enum e =? j_stop c then Jb else Ja).
-    assert (HJ : sfold [] (filter is_nu out) = Some J).
-    { unfold out, J. rewrite Hfst, filter_is_nu_app, Hda.
-      change (filter is_nu X1) with (filter nu_ev X1). rewrite sfold_app, sfold_filter, HJa.
-      destruct (enum e =? j_stop c); [|reflexivity].
-      change (filter is_nu [e]) with (filter nu_ev [e]). rewrite sfold_filter. cbn [sfold]. rewrite Hsap. reflexivity. }
-    exists J. split; [exact HJ|]. right. exists (delivered c X1), e.
-    split; [unfold out; rewrite Hfst; reflexivity|]. split; [exact Hp|]. split; [exact Hge|].
-    intros Hm Hcan.
-    pose proof (sapply_new_top Ja e Jb Hsap Hm) as EJb.
-    destruct HGb as [HGb|[V HR]]; [rewrite EJb in HGb; discriminate|].
-    apply in_split in Hcan as (cpre & cpost & Ecan).
-    pose proof (rel_top_canon U U_id U_uniq U_up start V Jb (eblk e) Ja canon cpre cpost HR EJb Ecan HcU Hcl Hsl) as Htop.
-    (* canon up to the block of e, by numbers *)
-    assert (Hsorted : StronglySorted blt canon).
-    { destruct Hcl as [xc Hlc]. apply (linked_sorted U U_id U_uniq U_up _ xc Hlc HcU). }
-    assert (Hcpre : forall y, In y cpre -> bnum y < enum e).
-    { intros y Hy. rewrite Ecan in Hsorted.
-      destruct (Proofs.C09_Proofs.StronglySorted_split blt cpre (eblk e) cpost Hsorted) as [HA _]. exact (HA y Hy). }
-    assert (Hcpost : forall y, In y cpost -> enum e < bnum y).
-    { intros y Hy. rewrite Ecan in Hsorted.
-      destruct (Proofs.C09_Proofs.StronglySorted_split blt cpre (eblk e) cpost Hsorted) as [_ HB]. exact (HB y Hy). }
-    assert (Hseg : from_num start (cpre ++ [eblk e]) = seg_num start (enum e) canon).
-    { unfold seg_num, from_num. rewrite Ecan.
-      change (eblk e :: cpost) with ([eblk e] ++ cpost). rewrite app_assoc, (filter_app _ (cpre ++ [eblk e]) cpost).
-      rewrite (filter_none _ _ cpost), app_nil_r.
-      - apply filter_ext_in. intros y Hy. replace (bnum y <=? enum e) with true; [rewrite andb_true_r; reflexivity|].
-        symmetry. apply N.leb_le. apply in_app_or in Hy as [Hy|[<-|[]]]; [specialize (Hcpre y Hy); lia | unfold enum; lia].
-      - apply Forall_forall. intros y Hy. specialize (Hcpost y Hy). apply andb_false_iff. right. apply N.leb_gt. exact Hcpost. }
-    split.
-    - (* canon has a block numbered S: e announces it *)
-      intros (bS & HbS & HnS). destruct (N.eq_dec (enum e) (j_stop c)) as [E|E]; [exact E|]. exfalso.
-      assert (Hlt : j_stop c < enum e) by lia.
-      (* bS is held under the block of e *)
-      assert (HbSin : In bS (rev Jb)).
-      { assert (H : In bS (from_num start (rev Jb))).
-        { rewrite Htop, Hseg. unfold seg_num. apply filter_In. split; [exact HbS|].
-          apply andb_true_iff. split; apply N.leb_le; [|lia].
-          rewrite HnS. exact Hle. }
-        unfold from_num in H. apply filter_In in H as [H _]. exact H. }
-      apply in_rev in HbSin. rewrite EJb in HbSin. destruct HbSin as [EbS|HbSin].
-      + unfold enum in Hlt. rewrite EbS in Hlt. lia.
-      + destruct (sfold_origin X1 [] Ja HJa bS HbSin) as [[]|(x & Hx & Hxb & Hxm)].
-        specialize (Hbelow x Hx Hxm). unfold enum in Hbelow. rewrite Hxb in Hbelow. lia.
-    - intros E. unfold J. rewrite E, N.eqb_refl. split; [rewrite EJb; reflexivity|].
-      rewrite Htop, Hseg, E. reflexivity.
+    apply (stop_event_from U c canon start merged_end U_id U_uniq U_up Hchain Hincl Hstartle Hnu []). intros b [].
   Qed.
 
   (* the file source reports the end of the bundle of S and the chain did not stop: S is on a skipped number *)
@@ -298,7 +327,7 @@ Section NumRun.
     (forall b, In b canon -> bnum b <> j_stop c) /\
     D = filter (fun b => (start <=? bnum b) && (bnum b <? j_stop c)) merged.
   Proof.
-    intros Hrej Hfe Hns.
+    clear Hmode. intros Hrej Hfe Hns.
     assert (E0 : j_stop c <> 0).
     { intros E. unfold fend in Hfe. rewrite E in Hfe. discriminate. }
     assert (Hle : (j_stop c / j_bundle c + 1) * j_bundle c <= merged_end).
